@@ -44,16 +44,19 @@ Proof.
 Qed.
 
 Lemma rid_digits_eof : forall ds neg res,
-  Forall isdig ds -> ds <> [] -> read_int_digits neg res (map digit_char ds) = REof.
+  Forall isdig ds -> ds <> [] ->
+  read_int_digits neg res (map digit_char ds) = RInt (val_be res ds * neg) [SP].
 Proof.
   induction ds as [|d r IH]; intros neg res Hd Hne; [congruence|].
   inversion Hd as [|x y Hd1 Hdr]; subst.
   cbn [map read_int_digits]. rewrite digit_of_char by exact Hd1.
-  destruct r as [|d2 r]; [reflexivity|].
-  inversion Hdr as [|x y Hd2 _]; subst. cbn [map].
-  destruct (digit_facts (digit_char d2) (is_digit_char d2 Hd2)) as [Hs _]. rewrite Hs.
-  change (digit_char d2 :: map digit_char r) with (map digit_char (d2 :: r)).
-  apply IH; [assumption|discriminate].
+  destruct r as [|d2 r].
+  - cbn [map]. unfold val_be. cbn [fold_left]. do 2 f_equal. lia.
+  - inversion Hdr as [|x y Hd2 _]; subst. cbn [map].
+    destruct (digit_facts (digit_char d2) (is_digit_char d2 Hd2)) as [Hs _]. rewrite Hs.
+    change (digit_char d2 :: map digit_char r) with (map digit_char (d2 :: r)).
+    rewrite IH by (assumption || discriminate).
+    unfold val_be. cbn [fold_left]. do 3 f_equal. lia.
 Qed.
 
 Lemma read_int_num : forall z ws sp rest,
@@ -85,7 +88,7 @@ Proof.
 Qed.
 
 Lemma read_int_num_eof : forall z ws,
-  forallb is_space ws = true -> read_int (ws ++ print_Zl z) = REof.
+  forallb is_space ws = true -> read_int (ws ++ print_Zl z) = RInt z [SP].
 Proof.
   intros z ws Hws. unfold read_int. rewrite skip_spaces_app by exact Hws.
   destruct (print_Zl_cases z) as [[Hz ->]|[Hz ->]].
@@ -95,7 +98,7 @@ Proof.
     destruct (dlist (- z)) as [|d r] eqn:E; [congruence|].
     change (map digit_char (d :: r)) with (digit_char d :: map digit_char r). cbv iota.
     change (digit_char d :: map digit_char r) with (map digit_char (d :: r)).
-    apply rid_digits_eof; [assumption|discriminate].
+    rewrite rid_digits_eof by (assumption || discriminate). rewrite H2. f_equal. lia.
   - destruct (dlist_spec z Hz) as [H1 [H2 H3]]. rewrite print_nat_Z_dlist.
     destruct (dlist z) as [|d r] eqn:E; [congruence|].
     assert (Hd : isdig d) by (inversion H1; assumption).
@@ -103,7 +106,7 @@ Proof.
     change (map digit_char (d :: r)) with (digit_char d :: map digit_char r).
     cbn [skip_spaces]. rewrite Hs, Hm.
     change (digit_char d :: map digit_char r) with (map digit_char (d :: r)).
-    apply rid_digits_eof; [assumption|discriminate].
+    rewrite rid_digits_eof by (assumption || discriminate). rewrite H2. f_equal. lia.
 Qed.
 
 (* ------------------------------------------------------------------ *)
@@ -150,13 +153,13 @@ Lemma read_clause_lits_eof : forall c lay nv acc ws f,
   wf_lits nv c -> forallb is_space ws = true ->
   (List.length c < f)%nat ->
   read_clause f nv (ws ++ fst (render_lits c lay) ++ tok "0") acc
-  = CDone (match acc ++ c with [] => None | x => Some x end) [].
+  = CDone (Some (acc ++ c)) [].
 Proof.
   induction c as [|l c IH]; intros lay nv acc ws f Hwf Hws Hf.
   - destruct f as [|f]; [simpl in Hf; lia|].
     cbn [render_lits fst app read_clause].
     change (tok "0") with (print_Zl 0). rewrite read_int_num_eof by assumption.
-    rewrite app_nil_r. destruct acc; reflexivity.
+    change (0 =? 0) with true. cbv iota. cbn [tl]. rewrite app_nil_r. reflexivity.
   - destruct f as [|f]; [simpl in Hf; lia|]. cbn [List.length] in Hf.
     destruct (wf_lits_cons _ _ _ Hwf) as [[Hl0 Hln] Hwf'].
     cbn [render_lits]. destruct (sep1_multi lay) as [Hs1 Hs2].
@@ -254,16 +257,17 @@ Proof.
 Qed.
 
 Lemma top_filler : forall fl r nv cls res,
-  Forall (fun l => filler_line (tok "c") false (fst l)) fl ->
+  Forall (fun l => filler_line (tok "c") false false (fst l)) fl ->
   top_ok r nv cls res -> top_ok (join_lines false fl ++ r) nv cls res.
 Proof.
   induction fl as [|[l crlf] fl IH]; intros r nv cls res Hf H; [exact H|].
   inversion Hf as [|x y Hl Hr]; subst. cbn [fst] in Hl.
   rewrite join_lines_cons, <- !app_assoc.
   specialize (IH r nv cls res Hr H).
-  destruct Hl as [->|[t [Ht ->]]].
-  - cbn [app]. apply top_spaces; [destruct crlf; reflexivity|exact IH].
-  - cbn [tok list_ascii_of_string app].
+  destruct Hl as [Hb|[ld [t [_ [Hld [Ht ->]]]]]].
+  - apply top_spaces; [apply blanks_space; exact Hb|].
+    apply top_spaces; [destruct crlf; reflexivity|exact IH].
+  - rewrite (Hld eq_refl). cbn [tok list_ascii_of_string app].
     pose proof (clean_no_lf _ (clean_print _ Ht)) as Hn.
     destruct crlf; cbn [line_end app].
     + change (t ++ CR :: LF :: join_lines false fl ++ r)
@@ -303,10 +307,10 @@ Proof.
 Qed.
 
 Lemma top_clause_eof : forall c lay nv cls,
-  wf_lits nv c -> c <> [] ->
+  wf_lits nv c ->
   top_ok (fst (render_lits c lay) ++ tok "0") nv cls (nv, cls ++ [c]).
 Proof.
-  intros c lay nv cls Hwf Hne.
+  intros c lay nv cls Hwf.
   pose proof (render_lits_length c lay) as Hlen.
   destruct (clause_first_char c lay []) as [b [r0 [Hs Hb]]]. rewrite app_nil_r in Hs.
   destruct (numchar_facts b Hb) as [B1 [B2 B3]].
@@ -323,7 +327,7 @@ Proof.
     { rewrite Hs. cbn [cnf_top]. rewrite B1, B2, B3. reflexivity. }
     rewrite Hstep.
     pose proof (read_clause_lits_eof c lay nv [] [] f Hwf eq_refl ltac:(lia)) as Hrc.
-    cbn [app] in Hrc. rewrite Hrc. destruct c as [|l c]; [congruence|].
+    cbn [app] in Hrc. rewrite Hrc.
     destruct f as [|f]; [simpl in Hf; lia|]. reflexivity.
 Qed.
 
@@ -473,6 +477,52 @@ Proof.
     apply H. lia.
 Qed.
 
+Lemma read_line_none : forall l, no_lf l -> read_line l = None.
+Proof.
+  unfold no_lf. induction l as [|c l IH]; intros H; [reflexivity|].
+  cbn [forallb] in H. apply andb_true_iff in H. destruct H as [H1 H2].
+  apply negb_true_iff in H1. cbn [read_line]. rewrite H1, IH by exact H2. reflexivity.
+Qed.
+
+(* the header is the last line of the file and has no end of line *)
+Lemma top_header_eof : forall lay n m cls0,
+  0 <= n -> 0 <= m ->
+  top_ok (fst (render_header "cnf" [n; m] lay)) 0 cls0 (n, []).
+Proof.
+  intros lay n m cls0 Hn Hm.
+  destruct (header_starts_p "cnf" [n; m] lay) as [hb Ehb].
+  pose proof (header_clean "cnf" [n; m] lay ltac:(discriminate) gtok_cnf) as Hc.
+  pose proof (header_fields "cnf" [n; m] lay [] ltac:(discriminate) gtok_cnf eq_refl) as HF.
+  rewrite app_nil_r in HF.
+  destruct (render_header_shape "cnf" [n; m] lay ltac:(discriminate) gtok_cnf)
+    as [ps [e [E [G [M _]]]]].
+  rewrite Ehb in *.
+  destruct ps as [|[t0 s0] ps]; [discriminate|].
+  cbn [map fst app] in M. injection M as Mt Mr. subst t0.
+  inversion G as [|x y [_ [Hs0 Hs0b]] G']; subst. cbn [snd] in *.
+  unfold flat in E. cbn [map List.concat fst snd tok list_ascii_of_string app] in E.
+  injection E as E. destruct s0 as [|b0 s0]; [congruence|].
+  cbn [forallb] in Hs0b. apply andb_true_iff in Hs0b. destruct Hs0b as [Hb0 _].
+  assert (Hf : fields hb = [tok "cnf"; print_Zl n; print_Zl m]).
+  { rewrite E in HF |- *. cbn [app] in HF |- *.
+    rewrite fields_cons2 in HF. change (is_fspace "p") with false in HF. rewrite Hb0 in HF.
+    cbv iota in HF. injection HF as HF. exact HF. }
+  assert (Hhb : clean hb).
+  { unfold clean in *. cbn [forallb] in Hc. apply andb_true_iff in Hc. tauto. }
+  exists 2%nat. split; [cbn [List.length]; lia|].
+  intros f Hfu. destruct f as [|[|f]]; [lia|lia|]. cbn [cnf_top].
+  change (is_space "p") with false. cbv iota. change (Ascii.eqb "p" "c") with false.
+  cbv iota. change (Ascii.eqb "p" "p") with true. cbv iota.
+  assert (Hph : parse_header hb = POk (n, m, [])).
+  { unfold parse_header. rewrite read_line_none by (apply clean_no_lf; exact Hhb).
+    destruct hb as [|h0 hb']; [discriminate E|].
+    rewrite Hf, !atoi_print_Zl. reflexivity. }
+  rewrite Hph.
+  replace ((n <? 0) || (m <? 0)) with false
+    by (symmetry; apply orb_false_iff; split; apply Z.ltb_ge; lia).
+  reflexivity.
+Qed.
+
 (* ------------------------------------------------------------------ *)
 (* C13 for solver.ParseCNF *)
 
@@ -482,16 +532,16 @@ Lemma render_clauses_ok : forall F bol lay nv cls,
 Proof.
   induction F as [|c F IH]; intros bol lay nv cls Hwf.
   - cbn [render_clauses]. rewrite app_nil_r. destruct bol; [|apply top_end].
-    pose proof (gen_filler_spec (tok "c") false lay) as Hfl.
-    destruct (gen_filler (tok "c") false lay) as [fl l1]. cbn [fst] in Hfl.
+    pose proof (gen_filler_spec (tok "c") false false lay) as Hfl.
+    destruct (gen_filler (tok "c") false false lay) as [fl l1]. cbn [fst] in Hfl.
     rewrite <- (app_nil_r (join_lines false fl)). apply top_filler; [exact Hfl|apply top_end].
   - assert (Hc : wf_lits nv c) by (apply Hwf; left; reflexivity).
     assert (HF : forall c', In c' F -> wf_lits nv c') by (intros c' H'; apply Hwf; right; exact H').
     cbn [render_clauses].
-    assert (Hfl : Forall (fun l => filler_line (tok "c") false (fst l))
-                         (fst (if bol then gen_filler (tok "c") false lay else ([], lay)))).
+    assert (Hfl : Forall (fun l => filler_line (tok "c") false false (fst l))
+                         (fst (if bol then gen_filler (tok "c") false false lay else ([], lay)))).
     { destruct bol; [apply gen_filler_spec|constructor]. }
-    destruct (if bol then gen_filler (tok "c") false lay else ([], lay)) as [fl l1].
+    destruct (if bol then gen_filler (tok "c") false false lay else ([], lay)) as [fl l1].
     cbn [fst] in Hfl.
     pose proof (sep0_inline l1) as Hlead. destruct (sep0 l1) as [lead l2]. cbn [fst] in Hlead.
     destruct (render_lits c l2) as [ls l3] eqn:Els.
@@ -504,13 +554,12 @@ Proof.
       apply top_filler; [exact Hfl|]. apply top_spaces; [apply blanks_space; exact Hlead|].
       rewrite Hrl. apply top_clause; [exact Hc|exact Hs2|apply blanks_space; exact Hs1|].
       rewrite (app_assoc cls [c] F). apply IH. exact HF.
-    + destruct (Nat.eqb (Nat.modulo k 4) 3 && match F with [] => true | _ :: _ => false end
-                && match c with [] => false | _ :: _ => true end) eqn:Elast.
-      * apply andb_true_iff in Elast. destruct Elast as [Elast Ec].
-        apply andb_true_iff in Elast. destruct Elast as [_ EF].
+    + destruct (Nat.eqb (Nat.modulo k 4) 3 && match F with [] => true | _ :: _ => false end)
+        eqn:Elast.
+      * apply andb_true_iff in Elast. destruct Elast as [_ EF].
         destruct F; [|discriminate]. rewrite app_nil_r. rewrite <- ?app_assoc.
         apply top_filler; [exact Hfl|]. apply top_spaces; [apply blanks_space; exact Hlead|].
-        rewrite Hrl. apply top_clause_eof; [exact Hc|]. destruct c; [discriminate|discriminate].
+        rewrite Hrl. apply top_clause_eof. exact Hc.
       * pose proof (sep0_inline l4) as Hs. destruct (sep0 l4) as [s l5]. cbn [fst] in Hs.
         destruct (next l5) as [e l6]. rewrite <- ?app_assoc.
         apply top_filler; [exact Hfl|]. apply top_spaces; [apply blanks_space; exact Hlead|].
@@ -521,22 +570,33 @@ Proof.
         -- rewrite (app_assoc cls [c] F). apply IH. exact HF.
 Qed.
 
-Theorem C13_dimacs_b : forall lay n F, wf_dimacs n F ->
-  parse_dimacs_r (render_dimacs_b lay n F) = POk (n, F).
+Lemma render_dimacs_top_ok : forall lay n F, wf_dimacs n F ->
+  top_ok (render_dimacs_b lay n F) 0 [] (n, F).
 Proof.
   intros lay n F [Hn Hwf]. unfold render_dimacs_b.
-  pose proof (gen_filler_spec (tok "c") false lay) as Hfl.
-  destruct (gen_filler (tok "c") false lay) as [fl l1]. cbn [fst] in Hfl.
+  pose proof (gen_filler_spec (tok "c") false false lay) as Hfl.
+  destruct (gen_filler (tok "c") false false lay) as [fl l1]. cbn [fst] in Hfl.
   destruct (render_header "cnf" [n; Z.of_nat (List.length F)] l1) as [h l2] eqn:Eh.
   assert (Hh : h = fst (render_header "cnf" [n; Z.of_nat (List.length F)] l1))
     by (rewrite Eh; reflexivity).
-  destruct (next l2) as [e l3].
-  assert (Hok : top_ok (join_lines false fl ++ h ++ line_end (Nat.odd e) ++ render_clauses F true l3)
-                       0 [] (n, F)).
+  destruct (next l2) as [e l3]. destruct (next l3) as [o l4].
+  assert (Hfull : top_ok (join_lines false fl ++ h ++ line_end (Nat.odd e)
+                          ++ render_clauses F true l4) 0 [] (n, F)).
   { apply top_filler; [exact Hfl|]. rewrite Hh.
     apply top_header; [exact Hn|lia|].
-    apply (render_clauses_ok F true l3 n []). exact Hwf. }
-  destruct Hok as [k [Hk H]]. unfold parse_dimacs_r. apply H. exact Hk.
+    apply (render_clauses_ok F true l4 n []). exact Hwf. }
+  destruct F as [|c F]; [|exact Hfull].
+  destruct (Nat.odd o); [|exact Hfull].
+  rewrite <- (app_nil_r h).
+  apply top_filler; [exact Hfl|]. rewrite app_nil_r, Hh.
+  apply top_header_eof; [exact Hn|simpl; lia].
+Qed.
+
+Theorem C13_dimacs_b : forall lay n F, wf_dimacs n F ->
+  parse_dimacs_r (render_dimacs_b lay n F) = POk (n, F).
+Proof.
+  intros lay n F Hwf. destruct (render_dimacs_top_ok lay n F Hwf) as [k [Hk H]].
+  unfold parse_dimacs_r. apply H. lia.
 Qed.
 
 Theorem C13_dimacs : forall lay n F, wf_dimacs n F ->
@@ -551,19 +611,8 @@ Theorem C13_dimacs_fuel : forall lay n F, wf_dimacs n F ->
   forall f, (S (List.length (render_dimacs_b lay n F)) <= f)%nat ->
   cnf_top f (render_dimacs_b lay n F) 0 [] = POk (n, F).
 Proof.
-  intros lay n F [Hn Hwf] f Hf. unfold render_dimacs_b in *.
-  pose proof (gen_filler_spec (tok "c") false lay) as Hfl.
-  destruct (gen_filler (tok "c") false lay) as [fl l1]. cbn [fst] in Hfl.
-  destruct (render_header "cnf" [n; Z.of_nat (List.length F)] l1) as [h l2] eqn:Eh.
-  assert (Hh : h = fst (render_header "cnf" [n; Z.of_nat (List.length F)] l1))
-    by (rewrite Eh; reflexivity).
-  destruct (next l2) as [e l3].
-  assert (Hok : top_ok (join_lines false fl ++ h ++ line_end (Nat.odd e) ++ render_clauses F true l3)
-                       0 [] (n, F)).
-  { apply top_filler; [exact Hfl|]. rewrite Hh.
-    apply top_header; [exact Hn|lia|].
-    apply (render_clauses_ok F true l3 n []). exact Hwf. }
-  destruct Hok as [k [Hk H]]. apply H. lia.
+  intros lay n F Hwf f Hf. destruct (render_dimacs_top_ok lay n F Hwf) as [k [Hk H]].
+  apply H. lia.
 Qed.
 
 (* ------------------------------------------------------------------ *)
@@ -582,7 +631,7 @@ Lemma render_clauses_nil : forall F,
 Proof.
   induction F as [|c F IH]; [reflexivity|].
   cbn [render_clauses].
-  change (gen_filler (tok "c") false []) with (@nil tline, @nil nat). cbv beta iota zeta.
+  change (gen_filler (tok "c") false false []) with (@nil tline, @nil nat). cbv beta iota zeta.
   change (sep0 []) with (@nil ascii, @nil nat). cbv beta iota zeta.
   rewrite render_lits_nil.
   change (next []) with (O, @nil nat). cbv beta iota zeta.
@@ -604,15 +653,20 @@ Proof.
     cbn [map List.concat]. rewrite IHu. unfold clause_cnf.
     cbn [map List.concat tok list_ascii_of_string app]. rewrite <- !app_assoc. reflexivity. }
   unfold render_dimacs_b, print_cnf_b. rewrite Hu.
-  change (gen_filler (tok "c") false []) with (@nil tline, @nil nat).
+  change (gen_filler (tok "c") false false []) with (@nil tline, @nil nat).
   cbv beta iota zeta. unfold render_header. cbn [spaced_toks map removelast last].
   repeat (progress (change (sep1 false []) with ([SP], @nil nat); cbv beta iota zeta)).
   change (sep0 []) with (@nil ascii, @nil nat). cbv beta iota zeta.
   change (next []) with (O, @nil nat). cbv beta iota zeta.
+  change (Nat.odd 0) with false. cbv iota.
+  match goal with
+  | |- _ = match ?F with [] => ?B | _ :: _ => ?B' end =>
+    transitivity B; [|destruct F; reflexivity]
+  end.
   rewrite render_clauses_nil.
   rewrite app_length, map_length, Nat2Z.inj_add, (Z.add_comm (Z.of_nat (List.length units))).
   rewrite map_app, concat_app, map_map.
-  unfold flat. cbn [map List.concat fst snd join_lines line_end Nat.odd app].
+  unfold flat. cbn [map List.concat fst snd join_lines line_end app].
   rewrite <- !app_assoc. reflexivity.
 Qed.
 
